@@ -74,7 +74,7 @@ def list_pool(int_widths):
     """list-valued int columns: 1..3 elements of varying width; with and without the trailing comma UCSC writes"""
     pool = []
     for n in (1, 2, 3):
-        for style, tag in (("", "list-plain"), (",", "list-trailing-comma")):
+        for style, tag in (("", "plain"), (",", "list-trailing-comma")):
             pool.append(P("n%d%s" % (n, style or "-"),
                           (lambda r, c, n=n, style=style: ",".join(t_int(int_widths[(r + c + i) % len(int_widths)], r + i, c)
                                                                    for i in range(n)) + style), tag))
@@ -287,8 +287,23 @@ def column_value(fmt, d, name, key=None):
     return plain(v)
 
 
-def check_text(col, tmp, fmt, text, zone, modes=("lazy", "eager"), descr=None):
-    """the run-time contract for one file: count + every column, in every read mode"""
+def guard(col, fn, fmt, zone, case):
+    """run fn(); an exception is a failure of the case.  signature = format:exception:<type of the root cause>:zone, so that the
+    lazy reader's ParsingException wrapper and the eager reader's bare exception of one defect share a signature"""
+    import traceback
+    try:
+        return fn()
+    except Exception as e:
+        root = e
+        while root.__cause__ is not None or (root.__context__ is not None and not root.__suppress_context__):
+            root = root.__cause__ if root.__cause__ is not None else root.__context__
+        col.fail("%s:exception:%s:%s" % (fmt, type(root).__name__, zone), case, traceback.format_exc()[-500:])
+        return None
+
+
+def check_text(col, tmp, fmt, text, zone, modes=("lazy", "eager"), focus=None):
+    """the run-time contract for one file: count + every column, in every read mode.
+    signature = format : column : failure kind : zone   (zone = class of the input, never the focus column or a counter)"""
     data = text.encode("latin1")
     n_exp, exp = expected_of(fmt, data)
     suffix, _ = suffix_and_buffer(fmt)
@@ -296,12 +311,12 @@ def check_text(col, tmp, fmt, text, zone, modes=("lazy", "eager"), descr=None):
     with open(path, "wb") as f:
         f.write(data)
     for mode in modes:
-        case = {"format": fmt, "text": text, "zone": zone, "mode": mode}
-        col.case({"f": fmt, "z": zone, "m": mode, "t": text}, nontrivial=True, contract="count+columns:" + fmt)
-        d = col.guarded(lambda: read_with(fmt, path, data, mode), "%s:read:%s" % (fmt, zone), case)
+        case = {"format": fmt, "text": text, "zone": zone, "mode": mode, "focus": focus}
+        col.case({"f": fmt, "m": mode, "t": text}, nontrivial=True, contract="count+columns:" + fmt)
+        d = guard(col, lambda: read_with(fmt, path, data, mode), fmt, zone, case)
         if d is None:
             continue
-        n_got = col.guarded(lambda: len(d), "%s:len:%s" % (fmt, zone), case)
+        n_got = guard(col, lambda: len(d), fmt, zone, case)
         if n_got is None:
             continue
         col.check(n_got == n_exp, "%s:count:wrong-number-of-entries:%s" % (fmt, zone), case,
@@ -313,7 +328,7 @@ def check_text(col, tmp, fmt, text, zone, modes=("lazy", "eager"), descr=None):
             for key in keys:
                 ee = e if key is None else e[key]
                 label = name if key is None else "%s.%s" % (name, key)
-                g = col.guarded(lambda: column_value(fmt, d, name, key), "%s:%s:%s" % (fmt, label, zone), case)
+                g = guard(col, lambda: column_value(fmt, d, name, key), fmt, zone, case)
                 if g is None:
                     continue
                 if isinstance(g, str) and isinstance(ee, list):
@@ -328,38 +343,62 @@ def expected_gt_text(data):
 
 
 # ------------------------------------------------------------------------------------- generators
-def zone_of(tags):
-    tags = sorted(set(tags))
-    if tags == ["plain"]:
-        return "widths"
-    return "+".join(tags)
+def zone_of(tags, crlf=False):
+    """class of an input: which kinds of token the varied column holds (never which column).  CRLF files form one
+    class of their own (their LF twins carry the token classes)"""
+    tags = set(tags)
+    if "list-trailing-comma" in tags:
+        base = "list-trailing-comma"
+    elif "dot" in tags and len(tags) > 1:
+        base = "dot+number"
+    else:
+        base = "+".join(sorted(tags))
+    if crlf:
+        return base + "+crlf" if base in ("list-trailing-comma", "dot+number", "empty") else "crlf"
+    return base
+
+
+def combos_of(pool, n, quick):
+    """all n-tuples of the pool; for pools of more than 6 entries (float tokens) the larger tuples are thinned to a
+    covering set: every entry at every record position next to 3 (quick, n=2) / 9 (n=3) different neighbours"""
+    k = len(pool)
+    if k <= 6 or n == 1 or (n == 2 and not quick):
+        return itertools.product(pool, repeat=n)
+    if n == 2:
+        return [(pool[i], pool[(i + d) % k]) for i in range(k) for d in (0, 1, 3)]
+    return [(pool[i], pool[(i + d) % k], pool[(i + e) % k]) for i in range(k) for d in (0, 1, 3) for e in (0, 2, 5)]
+
+
+# quick tier: columns whose one-at-a-time enumeration is already done by another format with the same reader code
+QUICK_SKIP_FOCUS = {"narrowpeak": 6, "bed12": 6, "wig": 3, "gff3": 8}
+ALWAYS_SKIP_FOCUS = {"bed3of6": 6}
 
 
 def gen_delimited(fmt, tier, pools):
-    """yields (zone, text, modes)"""
+    """yields (zone, text, modes, focus)"""
     spec = FORMATS[fmt]
     cols = spec["cols"]
-    nmax = 2 if tier == "quick" else 3
+    quick = tier == "quick"
+    nmax = 2 if quick else 3
     hdr = header_lines_of(fmt)
     raw_ok = fmt not in ("vcf",)
-    modes0 = ("lazy", "eager", "raw") if raw_ok else ("lazy", "eager")
-    need_hdr = []          # lines every file of the format carries
+    le = ("lazy", "eager")
+    modes_all = le + (("raw",) if raw_ok else ())
     # A. one column at a time: every combination of the column's pool over 1..nmax records
     for c, (name, kind) in enumerate(cols):
+        if (quick and c < QUICK_SKIP_FOCUS.get(fmt, 0)) or c < ALWAYS_SKIP_FOCUS.get(fmt, 0):
+            continue
         pool = pools[kind]
+        numeric = kind in ("int", "sint", "optint", "pos1", "float", "intlist")
         for n in range(1, nmax + 1):
-            if tier == "quick" and n == 2 and len(pool) > 6:
-                combos = [cb for i, cb in enumerate(itertools.product(pool, repeat=n))]
-            else:
-                combos = itertools.product(pool, repeat=n)
-            for combo in combos:
+            for combo in combos_of(pool, n, quick):
                 rows = baseline(fmt, pools, n)
                 for r, p in enumerate(combo):
                     rows[r][c] = p[1](r, c)
-                zone = "%s:%s" % (name, zone_of([p[2] for p in combo]))
-                yield zone, render(fmt, rows, need_hdr), modes0
-                if c in (0, len(cols) - 1) or kind in ("int", "sint", "optint", "pos1"):
-                    yield zone + ":crlf", render(fmt, rows, need_hdr, crlf=True), modes0
+                tags = [p[2] for p in combo]
+                yield zone_of(tags), render(fmt, rows), (le if quick or n == 3 else modes_all), name
+                if c in (0, len(cols) - 1) or (numeric and not quick):
+                    yield zone_of(tags, True), render(fmt, rows, crlf=True), le, name
     # B. all columns at once, rotating through the plain entries of each pool
     for n in range(1, 4):
         for shift in range(4):
@@ -370,10 +409,10 @@ def gen_delimited(fmt, tier, pools):
                     pl = [p for p in pools[kind] if p[2] == "plain"] or pools[kind]
                     row.append(pl[(r * 2 + c + shift) % len(pl)][1](r + shift, c))
                 rows.append(row)
-            yield "allcols:widths", render(fmt, rows, need_hdr), modes0
-            yield "allcols:widths:crlf", render(fmt, rows, need_hdr, crlf=True), modes0
+            yield "plain", render(fmt, rows), modes_all, "all"
+            yield "crlf", render(fmt, rows, crlf=True), modes_all, "all"
     # C. adjacent column pairs (thorough): every combination of plain entries in two neighbouring columns, 2 records
-    if tier != "quick":
+    if not quick:
         for c in range(len(cols) - 1):
             pa = [p for p in pools[cols[c][1]] if p[2] == "plain"][:3]
             pb = [p for p in pools[cols[c + 1][1]] if p[2] == "plain"][:3]
@@ -381,27 +420,26 @@ def gen_delimited(fmt, tier, pools):
                 rows = baseline(fmt, pools, 2)
                 rows[0][c], rows[0][c + 1] = combo[0][1](0, c), combo[1][1](0, c + 1)
                 rows[1][c], rows[1][c + 1] = combo[2][1](1, c), combo[3][1](1, c + 1)
-                yield "pair:%s+%s:widths" % (cols[c][0], cols[c + 1][0]), render(fmt, rows, need_hdr), ("lazy", "eager")
+                yield "plain", render(fmt, rows), le, "%s+%s" % (cols[c][0], cols[c + 1][0])
     # D. header / comment lines
     if spec["comment"] is not None:
         for n in (1, 2, 3):
             rows = baseline(fmt, pools, n)
             for k in range(0, len(hdr) + 1):
                 for crlf in (False, True):
-                    if k == 0 and not crlf:
+                    if k == 0:
                         continue
-                    yield "header:%d-lines%s" % (k, ":crlf" if crlf else ""), render(fmt, rows, hdr[:k], crlf=crlf), ("lazy", "eager")
+                    yield ("crlf" if crlf else "header"), render(fmt, rows, hdr[:k], crlf=crlf), le, "header-%d" % k
             if spec["interior"]:
                 cl = ["#c", "##longer comment line 12 34", "###"]
                 for mask in range(1, 2 ** (n + 1)):
                     comments = {g: [cl[(g + mask) % 3]] for g in range(n + 1) if mask >> g & 1}
                     for crlf in (False, True):
-                        yield ("interior-comments%s" % (":crlf" if crlf else ""), render(fmt, rows, (), crlf=crlf, comments=comments),
-                               modes0)
+                        yield (("crlf" if crlf else "interior-comments"), render(fmt, rows, (), crlf=crlf, comments=comments),
+                               modes_all, "comments-%d" % mask)
                 # two consecutive comments, and a comment containing the column delimiter
-                yield "interior-comments:consecutive", render(fmt, rows, (), comments={n - 1: ["#a", "##bb"]}), modes0
-                yield "interior-comments:with-tab", render(fmt, rows, (), comments={n - 1: ["#a\tb"]}), modes0
-    # E. '.'/int mixtures and list styles are part of A through the pools
+                yield "interior-comments", render(fmt, rows, (), comments={n - 1: ["#a", "##bb"]}), modes_all, "consecutive"
+                yield "comment-with-tab", render(fmt, rows, (), comments={n - 1: ["#a\tb"]}), modes_all, "tab"
 
 
 def seq_of(n, salt):
@@ -419,41 +457,49 @@ def fasta_text(records, width, crlf=False):
 
 
 def gen_fasta(tier):
-    maxL = 6 if tier == "quick" else 9
+    """yields (format, zone, text, modes, focus)"""
+    quick = tier == "quick"
+    le = ("lazy", "eager")
+    maxL = 6 if quick else 9
     widths = (1, 2, 3, 4, 9)
     names = ["s", "chr1 first record", "c_alt|x:1-2", "abcdefg"]
     for W in widths:
         for L in range(1, maxL + 1):
             for crlf in (False, True):
-                yield "fasta", "single:wrap%s" % (":crlf" if crlf else ""), fasta_text([("chr1", seq_of(L, 1))], W, crlf), ("lazy", "eager")
-    Ls = (1, 2, 3, 5) if tier == "quick" else (1, 2, 3, 4, 5, 7, 8)
+                yield "fasta", ("crlf" if crlf else "wrap"), fasta_text([("chr1", seq_of(L, 1))], W, crlf), le, "single"
+    Ls = (1, 2, 3, 5) if quick else (1, 2, 3, 4, 5, 7, 8)
     for W in (1, 2, 3, 4):
         for L1, L2 in itertools.product(Ls, repeat=2):
             for crlf in (False, True):
                 recs = [(names[(L1 + W) % 4], seq_of(L1, 1)), (names[(L2 + 1) % 4], seq_of(L2, 2))]
-                yield "fasta", "two:wrap%s" % (":crlf" if crlf else ""), fasta_text(recs, W, crlf), ("lazy", "eager")
-        L3s = (1, W, W + 1) if tier == "quick" else Ls
+                yield "fasta", ("crlf" if crlf else "wrap"), fasta_text(recs, W, crlf), (le if not (quick and crlf) else ("lazy",)), "two"
+        L3s = (1, W, W + 1) if quick else Ls
         for L1, L2, L3 in itertools.product((1, W, W + 1, 2 * W), (1, 2, 2 * W + 1), L3s):
             recs = [(names[1], seq_of(L1, 1)), (names[0], seq_of(L2, 2)), (names[2], seq_of(L3, 3))]
-            yield "fasta", "three:wrap", fasta_text(recs, W), ("lazy", "eager")
-    # lower case / N symbols are kept as written
-    yield "fasta", "symbols", fasta_text([("a", "acgtnNRYk"), ("b", "NNnn")], 4), ("lazy", "eager")
+            yield "fasta", "wrap", fasta_text(recs, W), (le if not quick else ("lazy",)), "three"
+    # lower case / N / IUPAC symbols are kept as written
+    yield "fasta", "symbols", fasta_text([("a", "acgtnNRYk"), ("b", "NNnn")], 4), le, "symbols"
     # two-line FASTA (explicit buffer type): all width combinations of names and sequences over 1..3 records
-    nmax = 2 if tier == "quick" else 3
+    nmax = 2 if quick else 3
     for n in range(1, nmax + 1):
         for ws in itertools.product((1, 2, 7), repeat=2 * n):
             recs = [(t_text(ws[2 * r], r, 0), t_dna(ws[2 * r + 1], r, 1)) for r in range(n)]
             for crlf in (False, True):
-                yield "fasta2", "widths%s" % (":crlf" if crlf else ""), fasta_text(recs, 100, crlf), ("lazy", "eager", "raw")
+                yield ("fasta2", ("crlf" if crlf else "plain"), fasta_text(recs, 100, crlf),
+                       (le + ("raw",)) if n == 1 or (n == 2 and not quick) else le, "widths")
 
 
 def gen_fastq(tier):
-    nmax = 2 if tier == "quick" else 3
+    quick = tier == "quick"
+    le = ("lazy", "eager")
+    nmax = 2 if quick else 3
     specials = ["@", "+", "!", "~", ">"]
     for n in range(1, nmax + 1):
         for ws in itertools.product((1, 2, 7), repeat=2 * n):
             for variant in range(3):
                 for crlf in (False, True):
+                    if crlf and variant and n > 1 and (quick or n == 3):
+                        continue
                     nl = "\r\n" if crlf else "\n"
                     out = ""
                     for r in range(n):
@@ -464,13 +510,13 @@ def gen_fastq(tier):
                             q = specials[(r + ws[1]) % len(specials)] + q[1:]
                         plus = "+" + (name if variant == 1 and r % 2 == 0 else "")
                         out += "@" + name + nl + seq + nl + plus + nl + q + nl
-                    zone = ("widths", "description+repeated-name", "special-first-quality-char")[variant] + (":crlf" if crlf else "")
-                    yield "fastq", zone, out, ("lazy", "eager", "raw")
+                    zone = "crlf" if crlf else ("plain", "description+repeated-name", "special-first-quality-char")[variant]
+                    yield "fastq", zone, out, (le + ("raw",)) if n == 1 or (n == 2 and not quick) else le, "widths"
 
 
 # ---- VCF INFO
 INFO_DECL = [("A", "1", "Integer"), ("AA", "1", "String"), ("AF", "A", "Float"), ("AC", ".", "Integer"), ("DB", "0", "Flag"),
-             ("D", "1", "Float"), ("H2", "0", "Flag"), ("MQ2", "2", "Integer")]
+             ("D", "1", "Float"), ("H2", "0", "Flag"), ("MQ2", "2", "Integer"), ("DBX", "1", "Integer")]
 
 
 def vcf_header(tag, decl=INFO_DECL, samples=()):
@@ -502,8 +548,8 @@ def info_value(key, typ, number, r, v):
 INFO_PATTERNS = [
     [], ["A"], ["AA"], ["AF"], ["AC"], ["DB"], ["D"], ["H2"], ["MQ2"],
     ["A", "AA"], ["AA", "A"], ["AF", "AC"], ["DB", "D"], ["D", "DB"], ["H2", "DB"], ["A", "DB", "AF"],
-    ["A", "AA", "AF", "AC", "DB", "D", "H2", "MQ2"], ["MQ2", "H2", "D", "DB", "AC", "AF", "AA", "A"],
-    ["XX", "A"], ["AF", "XX", "H2"],
+    ["A", "AA", "AF", "AC", "DB", "D", "H2", "MQ2", "DBX"], ["DBX", "MQ2", "H2", "D", "DB", "AC", "AF", "AA", "A"],
+    ["XX", "A"], ["AF", "XX", "H2"], ["DBX"], ["DBX", "A", "DB"],
 ]
 
 
@@ -527,37 +573,53 @@ def vcf_fixed(r, w=None):
             t_dna(1 + (r + 1) % 2, r, 4).upper(), [".", "30", "12.5"][r % 3], [".", "PASS", "q10;s50"][r % 3]]
 
 
+def info_zone(infos, decl, base):
+    """':short-info-text' = the INFO texts of the whole file together are not longer than the longest declared key"""
+    size = sum(len(t) + 1 for t in infos)
+    longest = max([len(k) for k, _, _ in decl] or [0])
+    return "short-info-text" if decl and size <= longest + 1 else base
+
+
 def gen_vcf_info(tier):
+    quick = tier == "quick"
+    le = ("lazy", "eager")
     hdr = vcf_header("info")
     pats = INFO_PATTERNS
-    nl_modes = (False, True)
     # one record: every pattern x value-width variant
     for pi, pat in enumerate(pats):
         for v in range(4):
-            for crlf in nl_modes:
-                rows = [vcf_fixed(0) + [info_text(pat, 0, v)]]
-                yield "vcf-info", "one-record%s" % (":crlf" if crlf else ""), render("vcf", rows, hdr, crlf), ("lazy", "eager")
+            for crlf in (False, True):
+                if crlf and quick and v:
+                    continue
+                infos = [info_text(pat, 0, v)]
+                rows = [vcf_fixed(0) + infos]
+                yield "vcf-info", info_zone(infos, INFO_DECL, "crlf" if crlf else "info"), render("vcf", rows, hdr, crlf), le, "one-record"
     # two records: every ordered pair of patterns
-    for (p1, pat1), (p2, pat2) in itertools.product(enumerate(pats), repeat=2):
-        rows = [vcf_fixed(0) + [info_text(pat1, 0, p2)], vcf_fixed(1) + [info_text(pat2, 1, p1)]]
-        yield "vcf-info", "two-records", render("vcf", rows, hdr), ("lazy", "eager")
+    pats2 = list(enumerate(pats)) if not quick else [(i, pats[i]) for i in (0, 1, 2, 3, 4, 5, 8, 9, 12, 15, 16, 17, 18, 20)]
+    for (p1, pat1), (p2, pat2) in itertools.product(pats2, repeat=2):
+        infos = [info_text(pat1, 0, p2), info_text(pat2, 1, p1)]
+        rows = [vcf_fixed(0) + infos[:1], vcf_fixed(1) + infos[1:]]
+        yield "vcf-info", info_zone(infos, INFO_DECL, "info"), render("vcf", rows, hdr), (le if not quick else (le[(p1 + p2) % 2],)), "two-records"
         if (p1 + p2) % 5 == 0:
-            yield "vcf-info", "two-records:crlf", render("vcf", rows, hdr, True), ("lazy", "eager")
+            yield "vcf-info", info_zone(infos, INFO_DECL, "crlf"), render("vcf", rows, hdr, True), le, "two-records"
     # three records: rotate (thorough: every triple of a reduced pattern set)
-    if tier == "quick":
+    if quick:
         triples = [(pats[i], pats[(i * 3 + 1) % len(pats)], pats[(i * 7 + 2) % len(pats)]) for i in range(len(pats))]
     else:
-        small = [pats[i] for i in (0, 1, 2, 3, 4, 5, 8, 9, 15, 16, 17, 18)]
+        small = [pats[i] for i in (0, 1, 2, 3, 5, 9, 16, 18, 20)]
         triples = itertools.product(small, repeat=3)
     for i, tr in enumerate(triples):
-        rows = [vcf_fixed(r) + [info_text(p, r, i + r)] for r, p in enumerate(tr)]
-        yield "vcf-info", "three-records", render("vcf", rows, hdr), ("lazy", "eager")
+        infos = [info_text(p, r, i + r) for r, p in enumerate(tr)]
+        rows = [vcf_fixed(r) + [infos[r]] for r in range(3)]
+        yield "vcf-info", info_zone(infos, INFO_DECL, "info"), render("vcf", rows, hdr), le, "three-records"
     # a header that declares only some of the keys, in another order
-    hdr2 = vcf_header("info2", [INFO_DECL[i] for i in (4, 2, 0)])
+    decl2 = [INFO_DECL[i] for i in (4, 2, 0)]
+    hdr2 = vcf_header("info2", decl2)
     for pat in (["A"], ["DB"], ["AF", "DB", "A"], []):
         for n in (1, 2):
-            rows = [vcf_fixed(r) + [info_text(pat if r == 0 else ["A", "AF"], r, r)] for r in range(n)]
-            yield "vcf-info", "partial-declaration", render("vcf", rows, hdr2), ("lazy", "eager")
+            infos = [info_text(pat if r == 0 else ["A", "AF"], r, r) for r in range(n)]
+            rows = [vcf_fixed(r) + [infos[r]] for r in range(n)]
+            yield "vcf-info", info_zone(infos, decl2, "partial-declaration"), render("vcf", rows, hdr2), le, "partial"
 
 
 GT_ALPHA = {
@@ -570,18 +632,20 @@ GT_SUFFIX = ["", ":7", ":12:0,3", ":.", ":1234567"]
 
 
 def gen_vcf_gt(tier):
+    quick = tier == "quick"
+    le = ("lazy", "eager")
     smax = 3
-    nmax = 2 if tier == "quick" else 3
+    nmax = 2 if quick else 3
     for fmt, alpha in GT_ALPHA.items():
         for ns in range(1, smax + 1):
             samples = ["s%d" % i for i in range(ns)]
             hdr_plain = vcf_header(fmt + "-plain", [], samples)
             hdr_info = vcf_header(fmt, INFO_DECL, samples)
             for n in range(1, nmax + 1):
-                step = 1 if tier != "quick" or len(alpha) <= 8 else 3
+                step = 1 if not quick or len(alpha) <= 8 else 5
                 for shift in range(0, len(alpha), step):
                     for style in (0, 1):           # 0 = "GT" only, 1 = further sub-fields of varying width after the GT
-                        rows = []
+                        rows, infos = [], []
                         for r in range(n):
                             gts = []
                             for s in range(ns):
@@ -589,25 +653,59 @@ def gen_vcf_gt(tier):
                                 if style:
                                     g += GT_SUFFIX[(r + s + shift) % len(GT_SUFFIX)]
                                 gts.append(g)
-                            info = info_text(INFO_PATTERNS[(shift + r) % len(INFO_PATTERNS)], r, shift)
-                            rows.append(vcf_fixed(r) + [info, "GT" if not style else "GT:DP:AD"] + gts)
+                            infos.append(info_text(INFO_PATTERNS[(shift + r + 1) % len(INFO_PATTERNS)], r, shift))
+                            rows.append(vcf_fixed(r) + [infos[-1], "GT" if not style else "GT:DP:AD"] + gts)
                         crlf = (shift + n + ns) % 4 == 0
-                        yield fmt, "samples-%d:%s%s" % (ns, "gt-only" if not style else "gt+subfields", ":crlf" if crlf else ""), \
-                            render("vcf", rows, hdr_info, crlf), ("lazy", "eager")
+                        zone = info_zone(infos, INFO_DECL, "crlf" if crlf else ("gt-only" if not style else "gt+subfields"))
+                        yield fmt, zone, render("vcf", rows, hdr_info, crlf), le, "samples-%d" % ns
                         if shift % 4 == 0:
                             rows2 = [row[:7] + ["."] + row[8:] for row in rows]
-                            yield fmt, "samples-%d:no-info-header" % ns, render("vcf", rows2, hdr_plain), ("lazy", "eager")
+                            yield fmt, "no-info-header", render("vcf", rows2, hdr_plain), le, "samples-%d" % ns
     # no sample columns at all: VCFBuffer2 gives an (n, 0) genotype matrix
     for n in (1, 2):
         rows = [vcf_fixed(r) + ["."] for r in range(n)]
-        yield "vcf-gt", "samples-0", render("vcf", rows, vcf_header("vcf-gt-0", [])), ("lazy", "eager")
+        yield "vcf-gt", "no-samples", render("vcf", rows, vcf_header("vcf-gt-0", [])), le, "samples-0"
+
+
+def check_type_sequence(col, tmp, text, order):
+    """the same VCF file read eagerly through several buffer types in one process: each read must still give its
+    own columns (the dataclass built from the header is cached by the library)"""
+    import bionumpy as bnp
+    data = text.encode("latin1")
+    path = os.path.join(tmp, "seq.vcf")
+    with open(path, "wb") as f:
+        f.write(data)
+    case = {"format": "vcf-typeseq", "text": text, "order": order, "mode": "eager", "zone": "typeseq"}
+    col.case({"f": "vcf-typeseq", "o": order, "t": text}, contract="columns:vcf-buffer-type-sequence")
+    for fmt in order:
+        n_exp, exp = expected_of(fmt, data)
+        cls = load_class(suffix_and_buffer(fmt)[1])
+        d = guard(col, lambda: bnp.open(path, buffer_type=cls, lazy=False).read(), fmt, "after-other-buffer-type", case)
+        if d is None:
+            continue
+        for name in [k for k in exp if k in ("genotype", "genotypes", "position")]:
+            e = exp[name] if not (name == "genotypes" and fmt == "vcf-matrix") else expected_gt_text(data)
+            g = guard(col, lambda: column_value(fmt, d, name), fmt, "after-other-buffer-type", case)
+            if g is not None:
+                col.check(ref.values_equal(g, e), "%s:%s:wrong-value:after-other-buffer-type" % (fmt, name), case,
+                          "got %r expected %r" % (g, e))
+
+
+def type_sequence_cases():
+    rows = [vcf_fixed(r) + [info_text(["A", "AF"], r, r), "GT", ["0|1", "1|1"][r], ["1|0", "0|0"][r]] for r in range(2)]
+    k = 0
+    for order in (["vcf-info", "vcf-matrix"], ["vcf-matrix", "vcf-info"], ["vcf-info", "vcf-gt"], ["vcf-phased", "vcf-haplotype"],
+                  ["vcf-gt", "vcf-info", "vcf-phased"]):
+        for decl in (INFO_DECL, []):
+            k += 1
+            yield render("vcf", rows, vcf_header("typeseq-%d" % k, decl, ["s0", "s1"])), order
 
 
 def all_cases(tier):
     pools = make_pools(tier)
     for fmt in FORMATS:
-        for zone, text, modes in gen_delimited(fmt, tier, pools):
-            yield fmt, zone, text, modes
+        for zone, text, modes, focus in gen_delimited(fmt, tier, pools):
+            yield fmt, zone, text, modes, focus
     yield from gen_fasta(tier)
     yield from gen_fastq(tier)
     yield from gen_vcf_info(tier)
@@ -628,18 +726,25 @@ def run(tier="quick", seed=0):
                   "float tokens": FLOAT_TOKENS, "list lengths": "1..3", "samples": "0..3",
                   "fasta": "L 1..%d x W in {1,2,3,4,9}" % (6 if tier == "quick" else 9),
                   "formats": list(FORMATS) + list(EXTRA_FORMATS), "line ends": ["LF", "CRLF"]}
+    import logging
+    logging.getLogger("bionumpy").setLevel(logging.ERROR)      # "INFO tag missing in header" warnings, once per file
     with TmpDir() as tmp:
-        for fmt, zone, text, modes in all_cases(tier):
-            check_text(col, tmp, fmt, text, zone, modes)
+        for fmt, zone, text, modes, focus in all_cases(tier):
+            check_text(col, tmp, fmt, text, zone, modes, focus)
             if col.out_of_time():
                 break
+        for text, order in type_sequence_cases():
+            check_type_sequence(col, tmp, text, order)
     return col.result()
 
 
 def replay(case):
     col = Collector("C02", "quick", 0, "replay")
     with TmpDir() as tmp:
-        check_text(col, tmp, case["format"], case["text"], case.get("zone", "replay"), (case["mode"],))
+        if case["format"] == "vcf-typeseq":
+            check_type_sequence(col, tmp, case["text"], case["order"])
+        else:
+            check_text(col, tmp, case["format"], case["text"], case.get("zone", "replay"), (case["mode"],), case.get("focus"))
     if col.failures:
         return False, "; ".join(f["signature"] + ": " + f["message"] for f in col.failures)
     return True, "ok"
